@@ -275,6 +275,19 @@ func TestDifferential2(t *testing.T) {
 		add("eq_rb (Filter_matches false %s %d %d %s) true", blist(after), nh, tweak, blist(data))
 	}
 	add("eq_rb (Filter_matches true [] 3 4 [1;2]) %s", bool2(bloom.LoadFilter(nil).Matches([]byte{1, 2})))
+	for i := 0; i < 60; i++ {
+		filt := rbytes(1+rng.Intn(30), 256)
+		nh, tweak := uint32(rng.Intn(8)), rng.Uint32()
+		var op wire.OutPoint
+		copy(op.Hash[:], rbytes(32, 256))
+		op.Index = rng.Uint32()
+		f := bloom.LoadFilter(&wire.MsgFilterLoad{Filter: append([]byte{}, filt...), HashFuncs: nh, Tweak: tweak})
+		add("eq_rb (Filter_matchesOutPoint %s %d false %s %d %d) %s", blist(op.Hash[:]), op.Index, blist(filt), nh, tweak, bool2(f.MatchesOutPoint(&op)))
+		f.AddOutPoint(&op)
+		after := f.MsgFilterLoad().Filter
+		add("eq_rl (Filter_addOutPoint %s %d false %s %d %d) (Ok %s)", blist(op.Hash[:]), op.Index, blist(filt), nh, tweak, blist(after))
+		add("eq_rb (Filter_matchesOutPoint %s %d false %s %d %d) true", blist(op.Hash[:]), op.Index, blist(after), nh, tweak)
+	}
 	// ---- paddedAppend ----
 	for i := 0; i < 60; i++ {
 		size := uint(rng.Intn(40))
